@@ -1,11 +1,14 @@
-(* Spike: faithful model of event_parser.rs (walker, receiver heuristic, symbol table, payload
-   inference) and of events.ts, compared token for token with the real output *)
+(* Faithful model of event_parser.rs (walker, receiver heuristic, symbol table, payload
+   inference), of event_name_to_function, and of events.ts / the events line of index.ts.
+   Definitions only. The walker is structural (no fuel): statement lists and argument lists
+   are traversed by the combinators of Section Walk. *)
 From Coq Require Import String Ascii.
 From Coq Require Import List Arith Lia Bool.
 Require Import TT.Model.Str TT.Model.TypeParse TT.Model.Render TT.Spec.TsLex TT.Model.Pipeline TT.Model.PipelineZod.
 Import ListNotations.
 Local Open Scope list_scope.
 
+(* ---- syntax of function bodies, as far as event_parser.rs distinguishes it ---- *)
 Inductive pat := PIdent (n : str) | PTyped (n : str) (t : qty) | POther.
 Inductive lit := LStr (v : str) | LInt | LFloat | LBool | LOther.
 Inductive expr :=
@@ -32,12 +35,12 @@ Definition insert (k v : str) (s : symtab) : symtab := (k, v) :: s.       (* Has
 Definition last_seg (l : list str) : str := last l [].
 Definition unknown : str := L "unknown".
 
-Fixpoint type_name (t : qty) : str :=       (* extract_type_name *)
+Fixpoint type_name (t : qty) : str :=       (* extract_type_name: event_parser.rs:71 *)
   match t with QRef u => type_name u | QPath _ n _ _ => n | QTuple _ => unknown end.
 
 Definition named (n : str) (l : list string) : bool := existsb (fun x => str_eqb n (L x)) l.
 Local Open Scope string_scope.
-Definition is_emitter (recv : expr) : bool :=          (* is_likely_tauri_emitter *)
+Definition is_emitter (recv : expr) : bool :=          (* is_likely_tauri_emitter: event_parser.rs:331 *)
   match recv with
   | XPath segs =>
       match segs with
@@ -50,90 +53,134 @@ Definition is_emitter (recv : expr) : bool :=          (* is_likely_tauri_emitte
   | _ => false
   end.
 
-Fixpoint infer_init (fuel : nat) (e : expr) (sy : symtab) : str :=     (* infer_type_from_init *)
-  match fuel with 0 => unknown | S f =>
+Fixpoint infer_init (e : expr) (sy : symtab) : str :=     (* infer_type_from_init: event_parser.rs:163 *)
   match e with
   | XStruct p => last_seg p
   | XCall (XPath (a :: _ :: _)) _ => a
   | XPath [n] => match lookup n sy with Some t => t | None => unknown end
-  | XRef u => infer_init f u sy
+  | XRef u => infer_init u sy
   | _ => unknown
-  end end.
+  end.
 
-Fixpoint infer_payload (fuel : nat) (e : expr) (sy : symtab) : str :=
-  match fuel with 0 => unknown | S f =>
+Fixpoint infer_payload (e : expr) (sy : symtab) : str :=  (* infer_payload_type: event_parser.rs:442 *)
   match e with
-  | XRef u => infer_payload f u sy
+  | XRef u => infer_payload u sy
   | XStruct p => last_seg p
   | XPath [n] => match lookup n sy with Some t => t | None => n end      (* falls back to the NAME *)
   | XPath segs => last_seg segs
   | XTuple [] => L "()"
   | XTuple _ => L "tuple"
   | XLit (LStr _) => L "String" | XLit LInt => L "i32" | XLit LFloat => L "f64" | XLit LBool => L "bool" | XLit LOther => unknown
-  | XMethod r m _ => if str_eqb m (L "clone") then infer_payload f r sy else unknown
+  | XMethod r m _ => if str_eqb m (L "clone") then infer_payload r sy else unknown
   | _ => unknown
-  end end.
+  end.
 Local Close Scope string_scope.
 
 Definition str_lit (e : expr) : option str := match e with XLit (LStr v) => Some v | _ => None end.
-Definition emit_event (m : str) (args : list expr) (sy : symtab) : list (str * str) :=
-  let pick := if str_eqb m (L "emit_to")
-              then match args with _ :: n :: p :: _ => Some (n, p) | _ => None end
-              else match args with n :: p :: _ => Some (n, p) | _ => None end in
-  match pick with
-  | Some (n, p) => match str_lit n with Some name => [(name, infer_payload 50 p sy)] | None => [] end
+Definition evs := list (str * str).           (* event name, payload_type string *)
+(* which arguments of emit / emit_to are the name and the payload: event_parser.rs:394 *)
+Definition emit_args (m : str) (args : list expr) : option (expr * expr) :=
+  if str_eqb m (L "emit_to")
+  then match args with _ :: n :: p :: _ => Some (n, p) | _ => None end
+  else match args with n :: p :: _ => Some (n, p) | _ => None end.
+Definition emit_event (m : str) (args : list expr) (sy : symtab) : evs :=
+  match emit_args m args with
+  | Some (n, p) => match str_lit n with Some name => [(name, infer_payload p sy)] | None => [] end
   | None => [] end.
+Definition is_emit_name (m : str) : bool := str_eqb m (L "emit") || str_eqb m (L "emit_to").
 
-(* the walk threads the (mutable) symbol table through statements in order *)
-Fixpoint walk_expr (fuel : nat) (e : expr) (sy : symtab) : list (str * str) * symtab :=
-  match fuel with 0 => ([], sy) | S f =>
-  let walk_stmts := fix ws (ss : list stmt) (sy : symtab) : list (str * str) * symtab :=
+(* extract_local_binding: event_parser.rs:135 (runs before the initialiser is searched) *)
+Definition bind_local (p : pat) (init : option expr) (sy : symtab) : symtab :=
+  match p, init with
+  | PIdent v, Some i => let t := infer_init i sy in if str_eqb t unknown then sy else insert v t sy
+  | PTyped v t, _ => insert v (type_name t) sy
+  | _, _ => sy end.
+
+(* the walk threads the (mutable, function-wide) symbol table through everything it visits *)
+Section Walk.
+  Variable W : expr -> symtab -> evs * symtab.
+  Definition walk_stmt (s : stmt) (sy : symtab) : evs * symtab :=
+    match s with
+    | SExpr e => W e sy
+    | SLet p init => let sy' := bind_local p init sy in
+                     match init with Some i => W i sy' | None => ([], sy') end
+    | SOther => ([], sy) end.
+  Fixpoint walk_stmts (ss : list stmt) (sy : symtab) : evs * symtab :=
     match ss with
     | [] => ([], sy)
-    | s :: r =>
-        let '(ev1, sy1) :=
-          match s with
-          | SExpr e => walk_expr f e sy
-          | SLet p init =>
-              let sy' := match p, init with
-                         | PIdent v, Some i => let t := infer_init 50 i sy in if str_eqb t unknown then sy else insert v t sy
-                         | PTyped v t, _ => insert v (type_name t) sy
-                         | _, _ => sy end in
-              match init with Some i => walk_expr f i sy' | None => ([], sy') end
-          | SOther => ([], sy) end in
-        let '(ev2, sy2) := ws r sy1 in (ev1 ++ ev2, sy2)
-    end in
-  let walk_list := fix wl (es : list expr) (sy : symtab) : list (str * str) * symtab :=
-    match es with [] => ([], sy) | x :: r => let '(a, s1) := walk_expr f x sy in let '(b, s2) := wl r s1 in (a ++ b, s2) end in
+    | s :: r => let '(a, s1) := walk_stmt s sy in let '(b, s2) := walk_stmts r s1 in (a ++ b, s2)
+    end.
+  Fixpoint walk_list (es : list expr) (sy : symtab) : evs * symtab :=
+    match es with
+    | [] => ([], sy)
+    | x :: r => let '(a, s1) := W x sy in let '(b, s2) := walk_list r s1 in (a ++ b, s2)
+    end.
+End Walk.
+
+Fixpoint walk_expr (e : expr) (sy : symtab) {struct e} : evs * symtab :=   (* extract_events_from_expr / handle_method_call *)
   match e with
   | XMethod recv m args =>
-      let here := if (str_eqb m (L "emit") || str_eqb m (L "emit_to")) && is_emitter recv then emit_event m args sy else [] in
-      let '(a, s1) := walk_expr f recv sy in
-      let '(b, s2) := walk_list args s1 in (here ++ a ++ b, s2)
-  | XBlock ss | XLoop ss | XWhile ss | XFor ss => walk_stmts ss sy
-  | XIf th el => let '(a, s1) := walk_stmts th sy in
-                 match el with Some x => let '(b, s2) := walk_expr f x s1 in (a ++ b, s2) | None => (a, s1) end
-  | XMatch arms => walk_list arms sy
-  | XAwait x | XTry x => walk_expr f x sy
+      let here := if is_emit_name m && is_emitter recv then emit_event m args sy else [] in
+      let '(a, s1) := walk_expr recv sy in
+      let '(b, s2) := walk_list walk_expr args s1 in (here ++ a ++ b, s2)
+  | XBlock ss | XLoop ss | XWhile ss | XFor ss => walk_stmts walk_expr ss sy
+  | XIf th el => let '(a, s1) := walk_stmts walk_expr th sy in
+                 match el with Some x => let '(b, s2) := walk_expr x s1 in (a ++ b, s2) | None => (a, s1) end
+  | XMatch arms => walk_list walk_expr arms sy
+  | XAwait x | XTry x => walk_expr x sy
   | _ => ([], sy)
-  end end.
+  end.
 
-Definition fn_events (params : list (str * qty)) (body : list stmt) : list (str * str) :=
-  fst (walk_expr 100 (XBlock body) (fold_left (fun s p => insert (fst p) (type_name (snd p)) s) params [])).
+(* extract_param_types: only identifier patterns enter the table (None = any other pattern) *)
+Definition param := (option str * qty)%type.
+Definition param_symbols (params : list param) : symtab :=
+  fold_left (fun s p => match fst p with Some n => insert n (type_name (snd p)) s | None => s end) params [].
+Definition fn_events_p (params : list param) (body : list stmt) : evs :=
+  fst (walk_expr (XBlock body) (param_symbols params)).
+Definition fn_events (params : list (str * qty)) (body : list stmt) : evs :=
+  fn_events_p (map (fun p => (Some (fst p), snd p)) params) body.
+
+(* ---- project level: analysis/mod.rs:125 (events of every top-level fn of every file, files in
+   the cache's iteration order), bin: nothing at all is generated without a command ---- *)
+Record fndef := { fd_params : list param; fd_body : list stmt }.
+Record project := { p_files : list (list fndef); p_has_command : bool }.
+Definition file_events (f : list fndef) : evs := flat_map (fun d => fn_events_p (fd_params d) (fd_body d)) f.
+Definition project_events (p : project) : evs := flat_map file_events (p_files p).
 
 (* ---- events.ts ---- *)
 Definition dash_to_us (s : str) : str := map (fun c => if Ascii.eqb c "-"%char then "_"%char else c) s.
-Definition listener_name (ev : str) : str := L "on" ++ pascal true (dash_to_us ev).
+Definition listener_name (ev : str) : str := L "on" ++ pascal true (dash_to_us ev).   (* event_name_to_function *)
 Definition payload_ts (rust : str) : str :=
   match parse_type_structure rust with Some ts => add_types_prefix (render ts) | None => [] end.
+Definition NL : str := [ascii_of_nat 10].
+(* partials/event_listener.ts.tera, line for line (the name also appears in the doc comment and a
+   name containing // turns the rest of ITS line into a comment, so line breaks matter) *)
 Definition listener_text (e : str * str) : str :=
   let t := payload_ts (snd e) in
-  cat [T "export async function "; listener_name (fst e); T "( handler: (payload: "; t; T ") => void ): Promise<UnlistenFn> { return listen<"; t;
-       T ">('"; fst e; T "', (event) => { handler(event.payload); }); } "].
+  cat [T "/**"; NL; T " * Listen for '"; fst e; T "' events"; NL; T " * @param handler - Callback function to handle the event"; NL;
+       T " * @returns Promise that resolves to an unlisten function"; NL; T " */"; NL;
+       T "export async function "; listener_name (fst e); T "("; NL;
+       T "  handler: (payload: "; t; T ") => void"; NL;
+       T "): Promise<UnlistenFn> {"; NL;
+       T "  return listen<"; t; T ">('"; fst e; T "', (event) => {"; NL;
+       T "    handler(event.payload);"; NL; T "  });"; NL; T "}"; NL; NL].
 Definition events_text (evs : list (str * str)) : str :=
-  T "import { listen, type UnlistenFn, type Event } from '@tauri-apps/api/event'; import * as types from './types'; " ++ cat (map listener_text evs).
+  cat [T "import { listen, type UnlistenFn, type Event } from '@tauri-apps/api/event';"; NL; T "import * as types from './types';"; NL; NL] ++
+  cat (map listener_text evs).
 
-(* ---- the sample function `worker` ---- *)
+(* what a generation run leaves behind, as far as C12 looks at it *)
+Record output := { o_generated : bool;            (* false: "No Tauri commands found", nothing written *)
+                   o_events_ts : option str;      (* events.ts *)
+                   o_index_reexports_events : bool }.
+Definition is_nil {A} (l : list A) : bool := match l with [] => true | _ => false end.
+Definition generate (p : project) : output :=
+  if p_has_command p then
+    let ev := project_events p in
+    if is_nil ev then {| o_generated := true; o_events_ts := None; o_index_reexports_events := false |}
+    else {| o_generated := true; o_events_ts := Some (events_text ev); o_index_reexports_events := true |}
+  else {| o_generated := false; o_events_ts := None; o_index_reexports_events := false |}.
+
+(* ---- the sample function `worker` (19 placements; validated against the binary) ---- *)
 Definition V (n : string) : expr := XPath [L n].
 Definition S_ (v : string) : expr := XLit (LStr (L v)).
 Definition emit (r : expr) (name : string) (p : expr) : expr := XMethod r (L "emit") [S_ name; p].
@@ -161,4 +208,3 @@ Definition worker_body : list stmt := [
   SExpr (M0 (emit app "typed-let" (V "q")) "ok");
   SExpr (XCall (XPath [L "std"; L "thread"; L "spawn"]) [XOther]);
   SExpr (XCall (V "Ok") [XTuple []]) ].
-
